@@ -661,13 +661,15 @@ fn stream_tok(bytes: &[u8], is_pattern: bool) -> String {
 static RES_COUNTER: AtomicU64 = AtomicU64::new(0);
 fn register(spec: Spec) -> String {
     let n = RES_COUNTER.fetch_add(1, Ordering::Relaxed);
-    let flavour = (spec.data.len() + spec.evs.len() + spec.piece + spec.fail_at % 7) % 6;
+    let flavour = (spec.data.len() + spec.evs.len() + spec.piece + spec.fail_at % 7) % 8;
     let name = match flavour {
         0 => format!("res-{n}"),
         1 => format!("ресурс/{n}/ключ ✓"),
         2 => format!("{n} with spaces, \"quotes\", ~0 ~1 / and \\ and \u{0} nul"),
         3 => format!("{n}{}", "k".repeat(if n % 8 == 0 { 70_000 } else { 300 })),
         4 => format!("{n}"),
+        5 => format!("  MiXeD Case Key {n} \t "),
+        6 => format!("Ünïcödé-ÀÉÎ-{n}-ß"),
         _ => format!("/_svs/open#{n}"),
     };
     specs().lock().unwrap().insert(name.clone(), spec);
@@ -894,6 +896,7 @@ fn exec_raw(sv: &mut Servers, out: &mut Out, idx: &str, p: &Params, script: &str
                     // oracle state
                     let mut st = OracleState::default();
                     let mut shape = Vec::new();
+                    let mut second_ids: Vec<u64> = Vec::new();
                     for t in script.split(',') {
                         n_tokens += 1;
                         if p.speed == 'c' {
@@ -977,6 +980,24 @@ fn exec_raw(sv: &mut Servers, out: &mut Out, idx: &str, p: &Params, script: &str
                                     }
                                 }
                             }
+                            "w" => {
+                                // a SECOND stream of the same resource is opened now and left open after one pull;
+                                // the following tokens still address the first stream's id
+                                match do_open(&mut conn, sv, &resource) {
+                                    Ok(o2) => {
+                                        if o2.stream_id == open.stream_id {
+                                            failures.push(("svs.raw.id_reused".into(), format!("a stream opened later got the id {} of the stream this case is still addressing", o2.stream_id)));
+                                        }
+                                        let pl = do_next(&mut conn, sv, o2.stream_id, &mut shape);
+                                        obs.push(format!("second({})", show_pulled(&pl, stream_known)));
+                                        second_ids.push(o2.stream_id);
+                                    }
+                                    Err(e) => {
+                                        failures.push(("svs.raw.open_failed".into(), e));
+                                        obs.push("second(open-failed)".into());
+                                    }
+                                }
+                            }
                             "u" => {
                                 // `next` for an id nobody was given: 0, the top of the range, far beyond the counter
                                 let bogus = match open.stream_id % 3 { 0 => 0, 1 => u64::MAX, _ => open.stream_id + 1_000_000_007 };
@@ -1015,6 +1036,9 @@ fn exec_raw(sv: &mut Servers, out: &mut Out, idx: &str, p: &Params, script: &str
                             }
                             _ => return None,
                         }
+                    }
+                    for id2 in second_ids {
+                        let _ = do_cancel(&mut conn, sv, id2, true);
                     }
                     for s in shape {
                         failures.push(("svs.raw.wire_shape".into(), s));
@@ -1961,7 +1985,7 @@ fn base(srv: &str, kind: &str, comp: u8, chunk: usize, depth: usize) -> Params {
     let level = if comp == 1 {
         let k = LEVEL_ROT.fetch_add(1, Ordering::Relaxed);
         match k % 40 {
-            7 => 19,
+            7 if k % 80 == 7 => 19,
             31 if k % 80 == 31 => -131072,      // ZSTD_minCLevel
             23 if k % 200 == 23 => 22,
             _ => ZSTD_LEVELS[(k % 5) as usize],
@@ -2155,7 +2179,7 @@ fn main() {
         if kind == "reader" && r.chance(1, 4) { p.interrupt = 2 + r.below(3) as usize; }
         if kind.starts_with("writer") && comp == 1 { p.variant = format!("e={}", evs_tok(&p.evs).replace(',', "_")); }
         let script = *r.pick(&["N,n", "N,n,n", "n,n,n", "N", "n,c,n", "c,n", "n,n,k,n,n", "N,c,n", "n,k,n", "N,k,n",
-            "u,n,u,N,u", "m,n,m,N,m,n", "o,n,j,n,o,N,n", "n,j,N,n", "u,m,j,o,N,u", "n,u,c,u,n", "j,n,k,n,j"]);
+            "N,w,n,n", "n,c,w,n", "n,w,n,N,w,n", "w,N,n", "u,n,u,N,u", "m,n,m,N,m,n", "o,n,j,n,o,N,n", "n,j,N,n", "u,m,j,o,N,u", "n,u,c,u,n", "j,n,k,n,j"]);
         run.raw(&p, script);
     }
     // (E) failures at every chunk boundary +-1 written byte
